@@ -42,7 +42,8 @@ def _get_iter(ex, st, v):
 def slice_iter(ex, st, r, by_value=False):
     v = S.as_vec(ex, st, r)
     slots = []
-    for k in range(v.cap):
+    cn = S._conc(v.len.t)
+    for k in range(v.cap if cn is None else cn):
         g = z3.ULT(BV64(k), v.len.t)
         if by_value:
             item = ex._elem(st, v, k)
@@ -136,6 +137,27 @@ def h_filter(ex, st, frame, t, nf, args, dty):
         p = _pure(ex, st, f, Ref(c, (), False, "&?"))
         slots.append((z3.And(g, p.t), x))
     return [(IterV(slots, it.item_ty, False, None), None)]
+
+
+def h_flatten(ex, st, frame, t, nf, args, dty):
+    """flatten over an iterator of Option<T> / &Option<T> items"""
+    it, _ = _get_iter(ex, st, args[0])
+    slots = []
+    for g, x in it.slots:
+        o = x
+        ref = None
+        if isinstance(o, Ref):
+            ref = S.vec_ref_any(ex, st, o)
+            o = ex.read_path(st, ref.cell, ref.proj)
+        if not isinstance(o, Obj):
+            raise Unsupported("flatten over %r" % (o,))
+        is_some = ex.get_discr(st, o).t == BV64(1)
+        if ref is not None:
+            item = Ref(ref.cell, tuple(ref.proj) + (("downcast", "Some"), ("field", 0, "?")), ref.mut, "&?")
+        else:
+            item = ex._get_field(st, o, "Some", 0, "?")
+        slots.append((z3.And(g, is_some), item))
+    return [(IterV(slots, "?", False, None), None)]
 
 
 def h_enumerate(ex, st, frame, t, nf, args, dty):
@@ -297,6 +319,7 @@ ITER_SUMMARIES = [
     (r"^<.* as (\S*::)?Iterator>::take_while$", h_take_while),
     (r"^<.* as (\S*::)?Iterator>::filter$", h_filter),
     (r"^<.* as (\S*::)?Iterator>::enumerate$", h_enumerate),
+    (r"^<.* as (\S*::)?Iterator>::flatten$", h_flatten),
     (r"^<.* as (\S*::)?Iterator>::count$", h_count),
     (r"^<.* as (\S*::)?Iterator>::position$", h_position),
     (r"^<.* as (DoubleEnded)?Iterator>::rposition$", h_rposition),
